@@ -12,19 +12,22 @@ import gen_poly
 import vlib
 
 EXPLANATION = (
-    "Lib/Lagrange.v, Lib/Cheb.v, Lib/Quadrature.v prove over R, for arbitrary distinct "
-    "nodes and all sizes: the cardinal functions are a delta on the grid, interpolation "
-    "reproduces every polynomial of admissible degree at every x (also with dropped "
-    "boundary points for polynomials vanishing there), each entry of the matrix that "
-    "_cardinalDeriv builds is the derivative of a cardinal function at a node, hence the "
-    "derivative matrix is exact at all grid points including the boundaries; T_n(cos t) = "
-    "cos nt, T_n' = n U_{n-1}, the restricted bases vanish at the dropped end points and "
-    "their derivative is what _chebyshevDeriv returns, Chebyshev and cardinal evaluation "
-    "agree, basis change round trip, Gauss-Chebyshev-Lobatto sums. Lib/Spectral.v is an "
-    "executable model of the Polynomial class (one definition, instantiated over Q and R); "
-    "its Q instance is compared by vm_compute with the running implementation on the "
-    "implementation's own float nodes (exact rationals). The property is also evaluated "
-    "directly on the implementation against numpy.polynomial.chebyshev.")
+    "tools/gen_poly.py re-extracts from polynomial.py, on every run, which Chebyshev orders, "
+    "restriction, rows and weights each method uses for every direction / end-point flag "
+    "(changeBasis on a rank-2 object for every ordered pair of axis kinds); Coq proves these "
+    "facts equal the model's, are mutually consistent and axis-independent. On the model "
+    "(Lib/Spectral.v, one definition instantiated over R and over rationals) and for "
+    "arbitrary distinct nodes / all sizes Coq proves: cardinal functions are a delta on the "
+    "grid; interpolation reproduces every admissible polynomial at every x (also with "
+    "dropped boundary points); every entry of _cardinalDeriv is the derivative of a "
+    "cardinal function, hence the derivative matrix is exact at all grid points incl. the "
+    "boundaries; T_n(cos t)=cos nt, T_n'=nU_{n-1}, exact degree n; restricted bases vanish at "
+    "the dropped points and _chebyshevDeriv holds their derivatives; Chebyshev and cardinal "
+    "evaluation agree; the basis matrix is square with trivial kernel; Gauss-Chebyshev-"
+    "Lobatto exactness and that integrate's weights (halved or dropped end points) realise "
+    "it. The rational instance of the model is compared by vm_compute with the running "
+    "implementation on its own float nodes; the property is also evaluated directly on the "
+    "implementation against numpy.polynomial.chebyshev.")
 
 DIRS = ("z", "pz", "pp")
 COQDIR = {"z": "Dz", "pz": "Dpz", "pp": "Dpp"}
